@@ -34,6 +34,7 @@ type V struct {
 	B    bool          `json:"b,omitempty"`
 	L    []V           `json:"l,omitempty"`
 	MK   []string      `json:"mk,omitempty"`
+	Any  bool          `json:"any,omitempty"` // a list handed to the engine as []any even when its elements have one kind
 	Safe bool          `json:"-"`
 	Loop *Loop         `json:"-"`
 	Mac  *macroClosure `json:"-"`
@@ -55,6 +56,7 @@ func StrV(s string) V    { return V{K: KStr, S: s} }
 func BoolV(b bool) V     { return V{K: KBool, B: b} }
 func FloatV(f float64) V { return V{K: KFloat, F: f} }
 func ListV(l ...V) V     { return V{K: KList, L: l} }
+func ListAnyV(l ...V) V  { return V{K: KList, L: l, Any: true} }
 func MapV(kv ...any) V {
 	m := V{K: KMap}
 	for i := 0; i+1 < len(kv); i += 2 {
@@ -86,6 +88,9 @@ func (v V) Go() any {
 			if e.K != KStr {
 				allStr = false
 			}
+		}
+		if v.Any {
+			allInt, allStr = false, false
 		}
 		if allInt && len(v.L) > 0 {
 			out := make([]int, len(v.L))
@@ -582,6 +587,9 @@ func sortKey(v V) (int, string, bool) {
 
 func sortVals(vs []V) {
 	sort.SliceStable(vs, func(i, j int) bool {
+		if vs[i].K == KFloat && vs[j].K == KFloat {
+			return vs[i].F < vs[j].F // two floats are ordered numerically
+		}
 		ai, as, aint := sortKey(vs[i])
 		bi, bs, bint := sortKey(vs[j])
 		if aint && bint {
